@@ -41,8 +41,33 @@
 (* SubscribeLate = TRUE creates the future only after the entry lock was    *)
 (* released (a separate step): TLC then finds the lost wake-up.             *)
 (*                                                                         *)
+(* Dependency cycles (C06).  Deps may be cyclic.  A computing entry carries *)
+(* the callees registered so far (`callees`, register_callee happens at the *)
+(* top of query_for, before the loop: it is part of the step that pushes    *)
+(* the frame) and the in-SCC flag (`scc`).  exit_scc of a *query* caller    *)
+(* that finds the callee computing runs check_cyclic: the computing queries *)
+(* reachable from the callee through registered callees, those of them from *)
+(* which the caller can be reached are marked; if the callee is among them  *)
+(* the caller is marked too and the read returns CyclicError: the caller's  *)
+(* executor unwinds, the caller publishes its cycle default (`cut`) - no    *)
+(* point of the code lies in between, so it is one step that ends at the    *)
+(* caller's q_publish.  Otherwise the task subscribes and waits.  After a   *)
+(* value was obtained (FastHit) is_query_running_in_scc(caller) unwinds a   *)
+(* caller that was marked meanwhile by some other task's search.  Mutation  *)
+(* switches: RegisterLate = TRUE registers the callee only after exit_scc   *)
+(* returned, i.e. after the wait (TLC: two tasks entering a 2-cycle from    *)
+(* both ends wait for each other for ever); MarkCallerOnly = TRUE marks     *)
+(* only the caller when the search succeeds (TLC: the other members of the  *)
+(* cycle publish ordinary results).  Dropping is_query_running_in_scc after *)
+(* the value was obtained is NOT a property-breaking mutation: a marked     *)
+(* query publishes its default at the end of its executor anyway (checked:  *)
+(* the model with that check removed satisfies the same invariants).        *)
+(*                                                                         *)
 (* Properties: SingleFlight (C02), NoOrphanWaiter (a task never waits on an *)
-(* entry that is gone), and under weak fairness every request completes.    *)
+(* entry that is gone), NoStall (some step is enabled until every request   *)
+(* is complete), CutOnlyOnCycle / CutExact (C06: exactly the executed       *)
+(* queries that lie on a cycle publish their cycle default), and under      *)
+(* weak fairness every request completes.                                   *)
 (***************************************************************************)
 EXTENDS Integers, Sequences, FiniteSets, TLC
 
@@ -52,7 +77,9 @@ CONSTANTS Tasks,          \* task ids
           Roots,          \* function task -> query it requests
           SubscribeLate,  \* mutation switch (FALSE = as coded)
           MaxAbandon,     \* how many requests may be abandoned (future dropped / executor panic)
-          SilentAbandon   \* mutation switch: an abandoned computation does not wake its waiters
+          SilentAbandon,  \* mutation switch: an abandoned computation does not wake its waiters
+          RegisterLate,   \* mutation switch: the callee is registered after exit_scc (FALSE = as coded)
+          MarkCallerOnly  \* mutation switch: a successful search marks the caller only, not the members it found
 
 VARIABLES stack,      \* task -> sequence of frames, top = last
           verified,   \* set of queries verified in this epoch
@@ -60,9 +87,13 @@ VARIABLES stack,      \* task -> sequence of frames, top = last
           owner,      \* query -> task that executes it (for SingleFlight)
           sub,        \* query -> set of tasks subscribed to the entry's Notify
           execs,      \* query -> number of executor runs (once per epoch)
-          abandoned   \* number of abandoned requests so far
+          abandoned,  \* number of abandoned requests so far
+          callees,    \* computing query -> callees registered so far
+          scc,        \* set of computing queries marked in-SCC
+          cut         \* set of queries that published their cycle default
 
-vars == <<stack, verified, computing, owner, sub, execs, abandoned>>
+vars == <<stack, verified, computing, owner, sub, execs, abandoned, callees, scc, cut>>
+cycVars == <<callees, scc, cut>>
 
 None == -1
 Frame(q, pc) == [q |-> q, pc |-> pc, i |-> 1]
@@ -79,27 +110,69 @@ Init ==
     /\ sub = [q \in Queries |-> {}]
     /\ execs = [q \in Queries |-> 0]
     /\ abandoned = 0
+    /\ callees = [q \in Queries |-> {}]
+    /\ scc = {} /\ cut = {}
 
 Active(t) == Len(stack[t]) > 0
+
+(* check_cyclic(callee, target): the computing queries reachable from the   *)
+(* callee through registered callees; those from which the target is        *)
+(* reachable are marked.                                                    *)
+RECURSIVE ReachC(_, _, _)
+ReachC(cs, frontier, seen) ==
+    LET nxt == {k \in UNION {cs[x] : x \in frontier} : k \in computing} \ seen
+    IN IF nxt = {} THEN seen ELSE ReachC(cs, nxt, seen \cup nxt)
+RECURSIVE InScc(_, _, _, _)
+InScc(cs, R, target, acc) ==
+    LET add == {x \in R \ acc : target \in cs[x] \/ cs[x] \cap acc # {}}
+    IN IF add = {} THEN acc ELSE InScc(cs, R, target, acc \cup add)
+
+CallerQ(t) == stack[t][Len(stack[t]) - 1].q     \* only for ~IsUser(t)
+
+(* the stack of t after its top frame returned CyclicError or a value to a  *)
+(* caller that is marked: the caller's executor unwinds, set_computed       *)
+(* stores the cycle default, the task stands at the caller's q_publish      *)
+Unwound(t) ==
+    LET n == Len(stack[t]) - 1
+    IN [stack EXCEPT ![t] = [k \in 1..n |-> IF k = n THEN [stack[t][k] EXCEPT !.pc = "publish"] ELSE stack[t][k]]]
 
 (* exit_scc: look up the computing entry *)
 Start(t) ==
     /\ Active(t) /\ Top(t).pc = "start"
-    /\ LET q == Top(t).q IN
+    /\ LET q == Top(t).q
+           \* mutation: the registration that belongs to the step before happens only now, after the search
+           cs == callees
+       IN
        IF q \in computing /\ ~IsUser(t)
-       THEN IF SubscribeLate
-            THEN /\ stack' = SetTop(t, [Top(t) EXCEPT !.pc = "scc_sub"]) /\ UNCHANGED sub
-            ELSE /\ sub' = [sub EXCEPT ![q] = @ \cup {t}]
-                 /\ stack' = SetTop(t, [Top(t) EXCEPT !.pc = "scc_wait"])
-       ELSE /\ stack' = SetTop(t, [Top(t) EXCEPT !.pc = "fast"]) /\ UNCHANGED sub
-    /\ UNCHANGED <<verified, computing, owner, execs, abandoned>>
+       THEN LET c == CallerQ(t)
+                R == ReachC(cs, {q}, {q})
+                M == InScc(cs, R, c, {})
+            IN IF q \in M
+               THEN \* cycle: mark, CyclicError, the caller unwinds and publishes its default
+                    /\ scc' = IF MarkCallerOnly THEN scc \cup {c} ELSE scc \cup M \cup {c}
+                    /\ stack' = Unwound(t)
+                    /\ verified' = verified \cup {c}
+                    /\ execs' = [execs EXCEPT ![c] = @ + 1]
+                    /\ cut' = cut \cup {c}
+                    /\ callees' = IF RegisterLate THEN [callees EXCEPT ![c] = @ \cup {q}] ELSE callees
+                    /\ UNCHANGED sub
+               ELSE /\ scc' = IF MarkCallerOnly THEN scc ELSE scc \cup M
+                    /\ UNCHANGED <<verified, execs, cut, callees>>   \* (RegisterLate: registered when the wait is over)
+                    /\ IF SubscribeLate
+                       THEN /\ stack' = SetTop(t, [Top(t) EXCEPT !.pc = "scc_sub"]) /\ UNCHANGED sub
+                       ELSE /\ sub' = [sub EXCEPT ![q] = @ \cup {t}]
+                            /\ stack' = SetTop(t, [Top(t) EXCEPT !.pc = "scc_wait"])
+       ELSE /\ stack' = SetTop(t, [Top(t) EXCEPT !.pc = "fast"])
+            /\ callees' = IF RegisterLate /\ ~IsUser(t) THEN [callees EXCEPT ![CallerQ(t)] = @ \cup {q}] ELSE callees
+            /\ UNCHANGED <<sub, verified, execs, scc, cut>>
+    /\ UNCHANGED <<computing, owner, abandoned>>
 
 (* mutation only: the Notified future is created after the lock was dropped *)
 LateSubscribe(t) ==
     /\ Active(t) /\ Top(t).pc \in {"scc_sub", "lock_sub"}
     /\ sub' = [sub EXCEPT ![Top(t).q] = @ \cup {t}]
     /\ stack' = SetTop(t, [Top(t) EXCEPT !.pc = IF Top(t).pc = "scc_sub" THEN "scc_wait" ELSE "lock_wait"])
-    /\ UNCHANGED <<verified, computing, owner, execs, abandoned>>
+    /\ UNCHANGED <<verified, computing, owner, execs, abandoned, cycVars>>
 
 (* woken by notify_waiters *)
 Woken(t) ==
@@ -108,7 +181,8 @@ Woken(t) ==
     \* exit_scc returns and query_for goes on to the fast path; a failed
     \* computing_lock_guard makes query_for start its loop over
     /\ stack' = SetTop(t, [Top(t) EXCEPT !.pc = IF Top(t).pc = "scc_wait" THEN "fast" ELSE "start"])
-    /\ UNCHANGED <<verified, computing, owner, sub, execs, abandoned>>
+    /\ callees' = IF RegisterLate /\ Top(t).pc = "scc_wait" THEN [callees EXCEPT ![CallerQ(t)] = @ \cup {Top(t).q}] ELSE callees
+    /\ UNCHANGED <<verified, computing, owner, sub, execs, abandoned, scc, cut>>
 
 (* One critical section of the code: query_for takes the read snapshot of   *)
 (* the query (which excludes set_computed of the same query), tries the     *)
@@ -118,8 +192,16 @@ Woken(t) ==
 FastHit(t) ==
     /\ Active(t) /\ Top(t).pc = "fast"
     /\ Top(t).q \in verified
-    /\ stack' = Pop(t)                      \* value returned to the caller frame
-    /\ UNCHANGED <<verified, computing, owner, sub, execs, abandoned>>
+    /\ IF ~IsUser(t) /\ CallerQ(t) \in scc
+       THEN \* is_query_running_in_scc(caller): the caller was marked meanwhile, it unwinds
+            LET c == CallerQ(t) IN
+            /\ stack' = Unwound(t)
+            /\ verified' = verified \cup {c}
+            /\ execs' = [execs EXCEPT ![c] = @ + 1]
+            /\ cut' = cut \cup {c}
+       ELSE /\ stack' = Pop(t)                      \* value returned to the caller frame
+            /\ UNCHANGED <<verified, execs, cut>>
+    /\ UNCHANGED <<computing, owner, sub, abandoned, callees, scc>>
 
 FastMiss(t) ==
     /\ Active(t) /\ Top(t).pc = "fast"
@@ -135,7 +217,7 @@ FastMiss(t) ==
                /\ owner' = [owner EXCEPT ![q] = t]
                /\ stack' = SetTop(t, [Top(t) EXCEPT !.pc = "exec"])
                /\ UNCHANGED sub
-    /\ UNCHANGED <<verified, execs, abandoned>>
+    /\ UNCHANGED <<verified, execs, abandoned, cycVars>>
 
 Fast(t) == FastHit(t) \/ FastMiss(t)
 
@@ -144,15 +226,19 @@ Exec(t) ==
     /\ Active(t) /\ Top(t).pc = "exec"
     /\ LET f == Top(t) IN
        IF f.i <= Len(Deps[f.q])
-       THEN /\ stack' = [stack EXCEPT ![t] =
+       THEN \* query_for: register_callee, then the loop (q_start)
+            /\ stack' = [stack EXCEPT ![t] =
                           Append([@ EXCEPT ![Len(@)] = [f EXCEPT !.i = f.i + 1]],
                                  Frame(Deps[f.q][f.i], "start"))]
-            /\ UNCHANGED <<verified, execs, abandoned>>
-       ELSE \* the executor returned: set_computed
+            /\ callees' = IF RegisterLate THEN callees ELSE [callees EXCEPT ![f.q] = @ \cup {Deps[f.q][f.i]}]
+            /\ UNCHANGED <<verified, execs, abandoned, cut>>
+       ELSE \* the executor returned: set_computed (the cycle default if the query was marked meanwhile)
             /\ stack' = SetTop(t, [f EXCEPT !.pc = "publish"])
             /\ verified' = verified \cup {f.q}
             /\ execs' = [execs EXCEPT ![f.q] = @ + 1]
-    /\ UNCHANGED <<computing, owner, sub, abandoned>>
+            /\ cut' = IF f.q \in scc THEN cut \cup {f.q} ELSE cut
+            /\ UNCHANGED <<callees, abandoned>>
+    /\ UNCHANGED <<computing, owner, sub, scc>>
 
 Publish(t) ==
     /\ Active(t) /\ Top(t).pc = "publish"
@@ -160,8 +246,10 @@ Publish(t) ==
        /\ computing' = computing \ {q}
        /\ owner' = [owner EXCEPT ![q] = None]
        /\ sub' = [sub EXCEPT ![q] = {}]          \* notify_waiters
+       /\ callees' = [callees EXCEPT ![q] = {}]     \* the entry is gone
+       /\ scc' = scc \ {q}
     /\ stack' = SetTop(t, [Top(t) EXCEPT !.pc = "start"])
-    /\ UNCHANGED <<verified, execs, abandoned>>
+    /\ UNCHANGED <<verified, execs, abandoned, cut>>
 
 (* The request of task t is abandoned while its innermost executor is       *)
 (* suspended: the caller dropped the future (cancellation) or the executor  *)
@@ -179,7 +267,9 @@ Abandon(t) ==
               ELSE [q \in Queries |-> IF q \in Owned(t) THEN {} ELSE sub[q]]
     /\ stack' = [stack EXCEPT ![t] = <<>>]
     /\ abandoned' = abandoned + 1
-    /\ UNCHANGED <<verified, execs>>
+    /\ callees' = [q \in Queries |-> IF q \in Owned(t) THEN {} ELSE callees[q]]
+    /\ scc' = scc \ Owned(t)
+    /\ UNCHANGED <<verified, execs, cut>>
 
 Next == \E t \in Tasks : Abandon(t) \/ Start(t) \/ LateSubscribe(t) \/ Woken(t) \/ Fast(t) \/ Exec(t) \/ Publish(t)
 
@@ -199,4 +289,19 @@ NoOrphanWaiter ==
 (* every request completes *)
 AllDone == \A t \in Tasks : ~Active(t)
 Progress == <>AllDone
+(* ... and until then some step is enabled (no deadlock) *)
+NoStall == AllDone \/ ENABLED Next
+
+(* C06: the queries on a (static) dependency cycle *)
+RECURSIVE ReachD(_, _)
+ReachD(frontier, seen) ==
+    LET nxt == UNION {{Deps[x][i] : i \in 1..Len(Deps[x])} : x \in frontier} \ seen
+    IN IF nxt = {} THEN seen ELSE ReachD(nxt, seen \cup nxt)
+DepSet(q) == {Deps[q][i] : i \in 1..Len(Deps[q])}
+OnCycle(q) == q \in ReachD(DepSet(q), DepSet(q))
+(* a query whose dependencies contain no cycle through it is never cut ... *)
+CutOnlyOnCycle == \A q \in cut : OnCycle(q)
+(* ... and every executed query that lies on a cycle publishes its default  *)
+(* (programs whose cycle members have one successor on a cycle)             *)
+CutExact == \A q \in verified : (q \in cut) = OnCycle(q)
 =============================================================================
